@@ -191,6 +191,13 @@ class W:
                     return ("num", 0)
                 if name == "derivate": return ("curve", 0)
                 if name == "eval": return ("seq", ("pt", recv[1] if recv[0] == "curve" else 1))
+                if U(f) in ("np.dot", "np.inner", "np.vdot", "np.tensordot") and len(args) >= 2:
+                    def w(v):
+                        return v[1] if v[0] == "pt" else (v[1][1] if v[0] == "seq" and isinstance(v[1], tuple) and v[1][0] == "pt" else None)
+                    if s.final and w(args[0]) == 1 and w(args[1]) == 1:
+                        s.eng.sites += 1
+                        s.eng.findings.append((s.q, e.lineno, "dot product of two positions", U(e)[:70]))
+                    return ("num", None)
                 if U(f) == "np.arctan2":
                     for a in args: s.check(e, "arctan2 of a position coordinate", a)
                     return ("num", 0)
